@@ -297,6 +297,84 @@ def Op.ok (g : G) : Op → Prop
   | .reindex m => ∀ x ∈ labels g, ∀ y ∈ labels g, applyMap m x = applyMap m y → x = y
   | _ => True
 
+/-- Taking an edge out at both of its end-points keeps the structure coherent. -/
+theorem coherent_unlink (g : G) (a b : Int) (h : Coherent g) : Coherent (unlink g a b) := by
+  have memU : ∀ n', n' ∈ unlink g a b ↔ ∃ n ∈ g, n' = unlinkNode a b n := by
+    intro n'
+    simp only [unlink, List.mem_map]
+    constructor
+    · rintro ⟨n, hn, rfl⟩; exact ⟨n, hn, rfl⟩
+    · rintro ⟨n, hn, rfl⟩; exact ⟨n, hn, rfl⟩
+  have lab : ∀ n, (unlinkNode a b n).label = n.label := by
+    intro n; simp only [unlinkNode]; split <;> split <;> rfl
+  have succs_of : ∀ n, (unlinkNode a b n).succs = if n.label = a then n.succs.erase b else n.succs := by
+    intro n; simp only [unlinkNode]; split <;> split <;> simp_all
+  have preds_of : ∀ n, (unlinkNode a b n).preds = if n.label = b then n.preds.erase a else n.preds := by
+    intro n; simp only [unlinkNode]; split <;> split <;> simp_all
+  refine ⟨?_, ?_, ?_, ?_⟩
+  · have : labels (unlink g a b) = labels g := by
+      simp only [labels, unlink, List.map_map]
+      apply List.map_congr_left
+      intro n _; exact lab n
+    rw [this]; exact h.nodup
+  · intro n' hn' s hs
+    obtain ⟨n, hn, rfl⟩ := (memU n').mp hn'
+    rw [succs_of] at hs
+    rw [lab]
+    have hsn : s ∈ n.succs := by
+      split at hs
+      · exact List.mem_of_mem_erase hs
+      · exact hs
+    have hne : ¬ (n.label = a ∧ s = b) := by
+      rintro ⟨ha, hb⟩
+      rw [if_pos ha] at hs
+      subst hb
+      exact (List.Nodup.mem_erase_iff (h.lists_nodup n hn).1).mp hs |>.1 rfl
+    obtain ⟨m, hm, h1, h2⟩ := h.succ_ok n hn s hsn
+    refine ⟨unlinkNode a b m, (memU _).mpr ⟨m, hm, rfl⟩, by rw [lab]; exact h1, ?_⟩
+    rw [preds_of]
+    split
+    · rename_i hmb
+      have : n.label ≠ a := by
+        intro ha
+        exact hne ⟨ha, by rw [← h1]; exact hmb⟩
+      exact (List.mem_erase_of_ne this).mpr h2
+    · exact h2
+  · intro n' hn' p hp
+    obtain ⟨n, hn, rfl⟩ := (memU n').mp hn'
+    rw [preds_of] at hp
+    rw [lab]
+    have hpn : p ∈ n.preds := by
+      split at hp
+      · exact List.mem_of_mem_erase hp
+      · exact hp
+    have hne : ¬ (n.label = b ∧ p = a) := by
+      rintro ⟨hb, ha⟩
+      rw [if_pos hb] at hp
+      subst ha
+      exact (List.Nodup.mem_erase_iff (h.lists_nodup n hn).2).mp hp |>.1 rfl
+    obtain ⟨m, hm, h1, h2⟩ := h.pred_ok n hn p hpn
+    refine ⟨unlinkNode a b m, (memU _).mpr ⟨m, hm, rfl⟩, by rw [lab]; exact h1, ?_⟩
+    rw [succs_of]
+    split
+    · rename_i hma
+      have : n.label ≠ b := by
+        intro hb
+        exact hne ⟨hb, by rw [← h1]; exact hma⟩
+      exact (List.mem_erase_of_ne this).mpr h2
+    · exact h2
+  · intro n' hn'
+    obtain ⟨n, hn, rfl⟩ := (memU n').mp hn'
+    obtain ⟨h1, h2⟩ := h.lists_nodup n hn
+    rw [succs_of, preds_of]
+    constructor
+    · split
+      · exact h1.erase _
+      · exact h1
+    · split
+      · exact h2.erase _
+      · exact h2
+
 /-- Every single operation preserves coherence … -/
 theorem coherent_apply (g : G) (op : Op) (h : Coherent g) (hok : op.ok g) : Coherent (apply g op).1 := by
   cases op with
@@ -318,6 +396,7 @@ theorem coherent_apply (g : G) (op : Op) (h : Coherent g) (hok : op.ok g) : Cohe
     · exact h
   | removeNode l => exact coherent_removeNode g l h
   | reindex m => exact coherent_reindex g _ h hok
+  | unlink a b => exact coherent_unlink g a b h
 
 /-- Run a whole operation sequence. -/
 def runOps : G → List Op → G
